@@ -615,6 +615,22 @@ def validate(execs, nproc=None):
     return verdicts, stats, ress
 
 
+FILE_LIMIT = 6000      # bytes; larger files are judged by the read-back only
+
+
+def with_file_event(ev, scn, meta, baseline_hex):
+    """UNCOMPRESSED files are additionally parsed by the TLA+ reference reader (WriterTrace's File judgement)
+    unless they are byte-identical to the fault-free file of the scenario, which was parsed once."""
+    s = scn["scenario"]
+    fh = meta.get("file")
+    if s["kind"] != "write" or s["codec"] not in wcommon.SPEC_DECODABLE or fh in (None, "absent", "readerr", "-"):
+        return ev
+    if fh == baseline_hex or len(fh) // 2 > FILE_LIMIT:
+        return ev
+    pos = next((j for j, e in enumerate(ev) if e["e"] == "Open"), len(ev) - 1)
+    return ev[:pos] + [{"id": ev[0]["id"], "e": "File", "bytes": list(bytes.fromhex(fh))}] + ev[pos:]
+
+
 DATA_CLASS = {"write": "ok-but-file-differs", "read": "ok-but-values-differ", "batch": "ok-but-values-differ", "schema": "ok-but-schema-differs"}
 
 
@@ -659,7 +675,8 @@ def run(chk, tier, replay):
 
     # 1. fault-free runs: K per scenario, and the baseline must itself be a behaviour of the specification
     base = run_cases(binary, [scenario_line("%s.0" % i, scns[i], 0) for i in ids], env={"VH_INJECT_STACK": "0"})
-    execs, K, excluded = [], {}, {}
+    execs, K, excluded, base_file = [], {}, {}, {}
+    files_differ = collections.Counter()
     for i in ids:
         r = base.get("%s.0" % i)
         if r is None or r.toks is None:
@@ -667,6 +684,8 @@ def run(chk, tier, replay):
             continue
         ev, meta = events_of("%s.0" % i, scns[i], r.toks)
         K[i] = meta["count"]
+        base_file[i] = meta.get("file")
+        ev = with_file_event(ev, scns[i], meta, None)
         if i not in UNJUDGED_DATA:
             execs.append(ev)
     verdicts, stats0, ress = validate(execs, nproc=4)
@@ -708,6 +727,10 @@ def run(chk, tier, replay):
             ev, meta = events_of(cid, scns[i], r.toks, collapse_fixture=True)
             r.meta = meta
             r.shape = shape_of(ev)
+            n0 = len(ev)
+            ev = with_file_event(ev, scns[i], meta, base_file.get(i))
+            if meta.get("file") not in (None, "absent", "readerr") and meta.get("file") != base_file.get(i):
+                files_differ[i] += 1
             if i in UNJUDGED_DATA:
                 ev = [e for e in ev if e["e"] in ("End", "Fault")]
             execs.append(ev)
@@ -735,6 +758,7 @@ def run(chk, tier, replay):
         if r.toks is not None and i not in UNJUDGED_DATA:
             shapes_seen[r.shape] += 1
     outside = sorted(s for s in shapes_seen if s not in allowed)
+    chk.part("files", differing_from_fault_free_file=dict(files_differ))
     chk.part("fault_points", scenarios=per_scn, total=len(meta_of), distinct_allocation_sites=len(sites))
     chk.part("outcomes", shapes_seen=dict(shapes_seen), allowed_shapes=len(allowed),
              allowed_shapes_seen=len([s for s in shapes_seen if s in allowed]), shapes_outside_small_model=outside,
